@@ -154,7 +154,8 @@ Inductive label :=
 | LKill | LDrain
 | LJoin (g : N) | LMon (g : N) | LLinkExt (q : aid) | LAdoptExt (o : aid)
 | LSupStatus (n : N) | LSupClose
-| LReuseName (b : aid). (* some other actor is spawned with the same name *)
+| LReuseName (b : aid)  (* some other actor is spawned with the same name *)
+| LSupTake.             (* the supervisor given to spawn_linked exits: its terminate() detaches and kills a, if a is its child *)
 
 Definition step (l : label) (s : st) : st :=
   match l with
@@ -246,6 +247,14 @@ Definition step (l : label) (s : st) : st :=
       if named s && negb (name_mine s) then
         match name_other s with None => set_name_other (Some b) s | Some _ => s end
       else s
+  | LSupTake =>
+      match my_sup s, sup s with
+      | Some x, Some p =>
+          if x =? p then
+            set_my_sup None (match sgn s with SigNone => set_sgn SigPending s | _ => s end)
+          else s
+      | _, _ => s
+      end
   end.
 
 Definition exec (ls : list label) (s : st) : st := fold_left (fun s l => step l s) ls s.
